@@ -1477,9 +1477,9 @@ def adapt_classes_any(val, serialize, instantiate_classes, sub_add_kwargs):
         except Exception:
             return orig_val
     elif isinstance(val, list):
-        for num, subval in enumerate(val):
-            val[num] = adapt_classes_any(subval, serialize, instantiate_classes, sub_add_kwargs)
+        val = [adapt_classes_any(subval, serialize, instantiate_classes, sub_add_kwargs) for subval in val]
     elif isinstance(val, dict):
+        val = val.copy()  # the given mapping may be the caller's own object (an OrderedDict is not copied by recreate_branches)
         for key, subval in val.items():
             val[key] = adapt_classes_any(subval, serialize, instantiate_classes, sub_add_kwargs)
     return val
